@@ -83,3 +83,26 @@ def _format_opaque(obj, format_spec=""):
 
 
 _core._PATCH_REGISTRATIONS[format] = _format_opaque
+
+
+# --- opt-in: real functools.lru_cache semantics.
+# CrossHair replaces every lru_cache call by a call of the wrapped function (caches would make runs
+# nondeterministic), which hides defects that live in a cache (stale entries, keys that compare equal across
+# types).  With VK_REAL_LRU=1 (vk.ob.real_lru_cache()) the cache is real; the obligation must then clear the
+# caches of the modules it exercises at its start (vk.ob.fresh_module_state) and keep cached arguments concrete.
+from functools import _lru_cache_wrapper as _lcw
+
+_skip_patch = _core._PATCH_REGISTRATIONS.get(_lcw.__call__)
+
+
+def _lru_call(self, *a, **kw):
+    if _os.environ.get("VK_REAL_LRU") == "1":
+        from crosshair.tracers import NoTracing
+        with NoTracing():
+            hit = _lcw.__call__
+        return hit(self, *a, **kw)
+    return _skip_patch(self, *a, **kw)
+
+
+if _skip_patch is not None:
+    _core._PATCH_REGISTRATIONS[_lcw.__call__] = _lru_call
